@@ -36,7 +36,7 @@ ASSUMPTIONS = [
     "reference decision for datagram sequences and the independent acceptability predicate (wire walker) in this file",
     "virtual clock: dns.query.time / dns.asyncquery.time; readiness is scripted through dns.query._wait_for and the socket stand-ins",
 ]
-REQUIRED = ["mon.udp_with_fallback", "mon.tcp_deadline", "mon.udp_sync", "mon.udp_async", "mon.returned_is_acceptable", "mon.tcp_reassembly", "mon.tcp_eof_positions", "mon.tcp_write_framing", "mon.tcp_async"]
+REQUIRED = ["mon.udp_flood_deadline", "mon.udp_with_fallback", "mon.tcp_deadline", "mon.udp_sync", "mon.udp_async", "mon.returned_is_acceptable", "mon.tcp_reassembly", "mon.tcp_eof_positions", "mon.tcp_write_framing", "mon.tcp_async"]
 BUDGET = {"quick": 45.0, "thorough": 480.0}
 
 DEST = ("192.0.2.53", 53)
@@ -254,6 +254,10 @@ class FakeUDPSocket:
         self.events = list(events)  # ('dgram', wire, from) | ('block',) | ('expire',)
         self.sent = []
         self.waits = 0
+        self.clock = None  # with a clock: every delivered datagram takes self.tick seconds of virtual time
+        self.tick = 0.0
+        self.deadline = None
+        self.reads_after_deadline = 0
 
     def sendto(self, data, dest):
         self.sent.append((bytes(data), dest))
@@ -269,6 +273,10 @@ class FakeUDPSocket:
         ev = self.events[0]
         if ev[0] == "dgram":
             self.events.pop(0)
+            if self.clock is not None:
+                if self.deadline is not None and self.clock.now >= self.deadline:
+                    self.reads_after_deadline += 1
+                self.clock.now += self.tick
             return ev[1][:n], ev[2]
         raise BlockingIOError
 
@@ -363,6 +371,8 @@ class AsyncUDP(dns.asyncbackend.DatagramSocket):
         return self.fake.sendto(what, destination)
 
     async def recvfrom(self, size, timeout):
+        if self.fake.clock is not None and timeout is not None and timeout <= 0:
+            raise dns.exception.Timeout  # what a backend does with no time left
         while True:
             try:
                 return self.fake.recvfrom(size)
@@ -697,6 +707,48 @@ def check_tcp_deadline(ctx, rng, is_async):
         ctx.violation(f"tcp-deadline-outcome:{mode}:{got}-expected-{want}", f"delays {delays} (sum {sum(delays):.2f}) clock at end {clock.now - (deadline - 5):.2f}", case)
 
 
+def check_flood(ctx, rng, is_async):
+    """datagrams that are skipped (forged source, wrong id, garbage) keep arriving, each taking some time: the exchange ends in
+    Timeout about when its deadline passes -- it does not go on reading for as long as the flood lasts"""
+    ctx.count("evaluations")
+    ctx.count("mon.udp_flood_deadline")
+    choose_destination(rng)
+    q = make_query(rng)
+    timeout = rng.choice((0.5, 1.0, 3.0))
+    tick = rng.choice((0.05, 0.2, 0.7))
+    n = int(timeout / tick) + rng.choice((5, 40, 200))
+    cats = [rng.choice(("forged_addr", "wrong_id", "garbage", "wrong_question")) for _ in range(n)]
+    events = []
+    for c in cats:
+        w, frm = datagram(c, q, rng)
+        events.append(("dgram", w, frm))
+    genuine_after = rng.random() < 0.5
+    if genuine_after:
+        w, frm = datagram("genuine", q, rng)
+        events.append(("dgram", w, frm))
+    fake = FakeUDPSocket(events)
+    clock = Clock()
+    fake.clock, fake.tick, fake.deadline = clock, tick, clock.now + timeout
+    mode = "async" if is_async else "sync"
+    case = {"kind": "flood", "mode": mode, "timeout": timeout, "tick": tick, "datagrams": n, "genuine_at_the_end": genuine_after, "where": WHERE}
+    try:
+        with swap_attr(dns.query, "time", clock), swap_attr(dns.query, "_wait_for", scripted_wait_for), swap_attr(dns.asyncquery, "time", clock):
+            if is_async:
+                run_async(dns.asyncquery.udp(q, WHERE, timeout=timeout, port=DEST[1], ignore_unexpected=True, ignore_errors=True, sock=AsyncUDP(fake)))
+            else:
+                dns.query.udp(q, WHERE, timeout=timeout, port=DEST[1], ignore_unexpected=True, ignore_errors=True, sock=fake)
+        got = "return"
+    except dns.exception.Timeout:
+        got = "Timeout"
+    except Exception as e:
+        ctx.violation(f"udp-flood-raised:{mode}:" + core.exc_sig(e), repr(e), case)
+        return
+    ctx.seen(("flood", mode, got, min(fake.reads_after_deadline, 3)))
+    # one datagram may be picked up right as the deadline passes; more than that is reading on after it
+    if fake.reads_after_deadline > 1:
+        ctx.violation(f"datagrams-read-on-after-the-deadline:{mode}", f"{fake.reads_after_deadline} datagrams read after the deadline (timeout {timeout}, one datagram per {tick} s, {n} skipped ones{' then the genuine reply' if genuine_after else ''}); ended with {got} at +{clock.now - 5000.0:.2f} s", case)
+
+
 def check_fallback(ctx, rng, is_async):
     """udp_with_fallback: a genuine TC reply over UDP, then the same exchange over TCP -- with the caller's options (one RR per
     RRset, ignore trailing octets) applied to BOTH legs"""
@@ -750,6 +802,7 @@ def run(spec, ctx):
     rng = ctx.rng
     for i in range(200):
         check_fallback(ctx, rng, is_async=(i % 2 == 1))
+        check_flood(ctx, rng, is_async=(i % 2 == 1))
     # exhaustive over option combinations x single-category preludes before the genuine reply
     combos = [(a, b, c, d) for a in (False, True) for b in (False, True) for c in (False, True) for d in (False, True)]
     k = 0
